@@ -323,6 +323,15 @@ template class xtl::xdynamic_bitset<std::uint64_t>;
 template class xtl::xdynamic_bitset<std::uint8_t>;
 template class xtl::xdynamic_bitset_base<xtl::xdynamic_bitset<std::uint64_t>>;
 template class xtl::xdynamic_bitset_base<xtl::xdynamic_bitset<std::uint8_t>>;
+template class xtl::xdynamic_bitset_view<std::uint64_t>;
+template class xtl::xdynamic_bitset_view<std::uint8_t>;
+template class xtl::xdynamic_bitset_base<xtl::xdynamic_bitset_view<std::uint64_t>>;
+template class xtl::xdynamic_bitset_base<xtl::xdynamic_bitset_view<std::uint8_t>>;
+template class xtl::xbitset_reference<xtl::xdynamic_bitset<std::uint64_t>, false>;
+template class xtl::xbitset_iterator<xtl::xdynamic_bitset<std::uint64_t>, false>;
+template class xtl::xbitset_iterator<xtl::xdynamic_bitset<std::uint64_t>, true>;
+template class xtl::xoptional_array<double, 3>;
+template class xtl::xcomplex_array<double, 3>;
 template class xtl::xbasic_fixed_string<char, 16, xtl::buffer | xtl::store_size, xtl::string_policy::throwing_error>;
 template class xtl::xbasic_fixed_string<char, 16, xtl::buffer, xtl::string_policy::silent_error>;
 template class xtl::xoptional_vector<double>;
